@@ -159,6 +159,19 @@ func C05(r *eng.Run) {
 			lo = 1
 		}
 		payLen = int(lo) + 1 + r.T.Int(sim.LLen, 50)
+		switch r.T.Int(sim.LLen, 12) {
+		case 0:
+			// Announced in the 16-bit form.
+			payLen = maxInt(payLen, 126+r.T.Int(sim.LLen, 40))
+			r.Probe("oversize_in_16_bit_length_form")
+		case 1:
+			// Announced in the 64-bit form, the limit just below or far below.
+			payLen = maxInt(payLen, 65536+r.T.Int(sim.LLen, 40))
+			if r.T.Bool(sim.LSize) && lo < 65530 {
+				lo = 65530
+			}
+			r.Probe("oversize_in_64_bit_length_form")
+		}
 		cfg.MaxFrameSize = lo + int64(r.T.Int(sim.LSize, payLen-int(lo)))
 		if r.T.Bool(sim.LOp) && !fragmented {
 			bad.Op = ref.OpText
@@ -514,6 +527,7 @@ func C07(r *eng.Run) {
 	cfg.ZeroBuf = cfg.App == AppReader && r.T.Chance(sim.LFault, 1, 8)
 	cfg.SkipEmpty = cfg.App == AppReader && r.T.Chance(sim.LCfg, 1, 3) // empty unfragmented messages are not read at all
 	cfg.RereadAfterUTF8 = cfg.App == AppReader && r.T.Bool(sim.LCfg)
+	cfg.SkipCheck = cfg.App == AppReader && r.T.Chance(sim.LCfg, 1, 6) // framing is valid: the header checks make no difference
 	if cfg.App == AppReader && cfg.Bufio == 0 && !cfg.OnContRead && r.T.Chance(sim.LFault, 1, 6) {
 		// One temporary read error inside the payload of a data frame; the
 		// application reads every unit to its end and retries.
